@@ -16,7 +16,7 @@ if [ -d "$MX/repo" ]; then git -C /repo worktree remove --force "$MX/repo" 2>/de
 git -C /repo worktree add --detach "$MX/repo" HEAD >/dev/null 2>&1 || { echo "cannot create mirror worktree"; exit 2; }
 mkdir -p "$MX/verif"
 rsync -a --exclude target --exclude .git --exclude replays "$V/" "$MX/verif/"
-sed -i "s#/repo#$MX/repo#g" "$MX/verif/check" "$MX/verif/tools/try_patch.sh" "$MX/verif/py/build_ext.sh" "$MX/verif/sim/Cargo.toml"
+sed -i "s#/repo#$MX/repo#g" "$MX/verif/check" "$MX/verif/tools/sensitivity.sh" "$MX/verif/tools/try_patch.sh" "$MX/verif/py/build_ext.sh" "$MX/verif/sim/Cargo.toml"
 : > "$log"
 ( cd "$MX/verif" && ./check build ) >> "$log" 2>&1 || { echo "mirror build failed" >> "$log"; exit 2; }
 for d in "$@"; do
